@@ -19,6 +19,7 @@ From SC Require Import Base.Prelude Gen.Units Traits.Str Traits.StrProofs
   Traits.ModeTrait Traits.ModeTraitProofs Traits.EnterLeave Traits.EnterLeaveProofs Traits.Meter Traits.MeterProofs
   Traits.Publication Traits.PublicationProofs Traits.Options Traits.OptionsProofs Traits.Store Traits.StoreProofs
   Traits.VendingStore Traits.VendingStoreProofs Traits.FanMask Traits.FanMaskProofs.
+From SC Require Import Msg.Msg Msg.Schema Msg.Path Masks.Get Traits.MeterMask Traits.MeterMaskProofs.
 From Coq Require Import QArith.
 Local Open Scope string_scope.
 Local Open Scope Z_scope.
@@ -441,3 +442,71 @@ Example C20_nonvacuous_fan_masked :
     [(mkFan 40 "high" 9 2, Some (mkFM true false false false false)); (mkFan 1 "" 1 2, Some (mkFM false false true true false))]
   = mkFan 15 "low" 1 2.
 Proof. reflexivity. Qed.
+
+(* ================= meter: UpdateMeterReading with arbitrary update masks (field-mask paths) ================= *)
+(* masks are lists of paths (Msg/Path.v), validated against the MeterReading schema (fm_valid) and interpreted
+   by prefix tests; covers ups p = some mask path is a prefix of p; touches ups f = some mask path is a prefix
+   of f or lies inside f *)
+
+(* FRAME: a field no mask path is related to keeps its value, for every mask (valid or not) and every request *)
+Theorem C20_meter_masked_update_frame : forall ups old req,
+  (touches ups "start_time" = false -> mm_start (snd (mm_update (Some ups) old req)) = mm_start old) /\
+  (touches ups "end_time" = false -> mm_end (snd (mm_update (Some ups) old req)) = mm_end old) /\
+  (touches ups "usage" = false -> mm_usage (snd (mm_update (Some ups) old req)) = mm_usage old).
+Proof. exact mm_update_frame. Qed.
+Print Assumptions C20_meter_masked_update_frame.
+
+(* INSIDE: what a valid non-empty mask writes *)
+Theorem C20_meter_masked_update_inside : forall ups old req, ups <> [] -> fm_valid meter_schema MR ups = true ->
+  fst (mm_update (Some ups) old req) = code_ok /\
+  (covers ups ["usage"] = true -> mm_usage (snd (mm_update (Some ups) old req)) = mm_usage req) /\
+  (covers ups ["start_time"] = true -> mm_start (snd (mm_update (Some ups) old req)) =
+     match mm_start req with Some r => Some (merge_ts (mm_start old) r) | None => None end) /\
+  (covers ups ["start_time"] = false -> covers ups ["start_time"; "seconds"] = true ->
+     forall s n, mm_start req = Some (s, n) -> option_map fst (mm_start (snd (mm_update (Some ups) old req))) = Some s).
+Proof. exact mm_update_inside. Qed.
+Print Assumptions C20_meter_masked_update_inside.
+
+Theorem C20_meter_masked_invalid_noop : forall ups old req, fm_valid meter_schema MR ups = false ->
+  mm_update (Some ups) old req = (code_invalid_argument, old).
+Proof. exact mm_update_invalid_noop. Qed.
+Print Assumptions C20_meter_masked_invalid_noop.
+
+(* all sequences of RecordReading / Reset / UpdateMeterReading(arbitrary mask, arbitrary request) in which no
+   update mask is related to start_time / end_time, under a clock that does not run backwards *)
+Theorem C20_meter_masked_sequences : forall ops m e0, mm_wf m = true -> mm_end m = Some (e0, 0) ->
+  forallb time_safe ops = true -> mm_times_from e0 ops = true ->
+  mm_wf (mm_run m ops) = true /\
+  mm_start (mm_run m ops) = mm_last_reset (mm_start m) ops /\
+  mm_end (mm_run m ops) = mm_last_time (mm_end m) ops.
+Proof. exact mm_sequences. Qed.
+Print Assumptions C20_meter_masked_sequences.
+
+(* without the guard on the masks the statement is false of the faithful model: UpdateMeterReading is a raw
+   write and can clear start_time or put end before start *)
+Theorem C20_meter_masked_unguarded_refuted :
+  let m := mkMM 5 (Some (10, 0)) (Some (20, 0)) in
+  mm_wf m = true /\
+  mm_wf (mm_step m (MMUpdate (Some [["start_time"]]) (mkMM 0 None None))) = false /\
+  mm_wf (mm_step m (MMUpdate (Some [["end_time"; "seconds"]]) (mkMM 0 None (Some (3, 0))))) = false.
+Proof. exact mm_update_breaks_wf. Qed.
+Print Assumptions C20_meter_masked_unguarded_refuted.
+
+(* RecordReading / Reset as first written (update paths naming the timestamp messages) *)
+Theorem C20_meter_masked_v0_refuted :
+  let m := mkMM 5 (Some (10, 900)) (Some (20, 100)) in
+  mm_wf m = true /\
+  mm_step_v0 m (MMReset 30) = mkMM 0 (Some (30, 900)) (Some (30, 100)) /\
+  mm_wf (mm_step_v0 m (MMReset 30)) = false /\
+  mm_end (mm_step_v0 m (MMRecord 7 30)) = Some (30, 100) /\
+  mm_wf (mm_step m (MMReset 30)) = true /\ mm_end (mm_step m (MMRecord 7 30)) = Some (30, 0).
+Proof. exact mm_step_v0_stale_nanos. Qed.
+Print Assumptions C20_meter_masked_v0_refuted.
+
+Example C20_nonvacuous_meter_masked :
+  let ops := [MMRecord 7 105; MMUpdate (Some [["usage"]; ["bogus"]]) (mkMM 1 None None);
+              MMUpdate (Some [["usage"]; ["usage"]]) (mkMM 9 (Some (1, 1)) None); MMReset 110; MMRecord 3 110] in
+  forallb time_safe ops = true /\ mm_times_from 100 ops = true /\
+  mm_run (mkMM 0 (Some (100, 0)) (Some (100, 0))) ops = mkMM 3 (Some (110, 0)) (Some (110, 0)) /\
+  mm_run (mkMM 0 (Some (100, 0)) (Some (100, 0))) (firstn 3 ops) = mkMM 9 (Some (100, 0)) (Some (105, 0)).
+Proof. vm_compute. repeat split. Qed.
